@@ -271,7 +271,8 @@ def replay(env, res, case):
 
 def run_section(env, res, c04):
     drv = env['driver']
-    hist = dict(rows=0, by_callee={}, outcomes={}, mismatching_rows=0, programs=0)
+    res.assumptions += ASSUMPTIONS
+    hist = dict(rows=0, by_callee={}, outcomes={}, mismatching_rows=0, programs=0, trusted=TRUSTED)
     if drv is None:
         res.extra['dispatch'] = dict(hist, note='model driver unavailable: sweep skipped')
         return
